@@ -250,6 +250,14 @@ def expected_derived(spec, d):
         if not unhex(new["lo"]) < unhex(new["hi"]):
             return spec, spec, "PriorException"
         return new, new, None
+    if how == "with_message":
+        # Prior.with_message after the prior was used: message of d["msg"], class and limits of the prior it was copied from
+        return d["msg"], dict(d["msg"], lo=spec["lo"], hi=spec["hi"]), None
+    if how == "set_limits":
+        # in-place change of the public limit attributes after the object was used: message as before, gate = the new limits
+        new = dict(spec)
+        new["lo"], new["hi"] = d["a"], d["b"]
+        return spec, new, None
     if how == "cls_with_limits":
         a, b = unhex(d["a"]), unhex(d["b"])
         if fam == "gaussian":
@@ -260,16 +268,80 @@ def expected_derived(spec, d):
     return spec, spec, None
 
 
-def gen_derived(rng, spec):
+def set_limits_pair(rng, spec):
+    """New limits (a < b) well inside the support of the message of `spec`, or None."""
     fam = spec["family"]
     lo, hi = unhex(spec["lo"]), unhex(spec["hi"])
-    hows = ["new", "from_dict", "from_config_dict", "pickle", "copy"]
+    f1, f2 = sorted([rng.uniform(0.05, 0.95), rng.uniform(0.05, 0.95)])
+    if f2 - f1 < 0.05:
+        f1, f2 = 0.25, 0.7
+    try:
+        if fam == "uniform":
+            a, b = lo + f1 * (hi - lo), lo + f2 * (hi - lo)
+        elif fam == "loguniform":
+            l0, l1 = math.log10(lo), math.log10(hi)
+            a, b = 10.0 ** (l0 + f1 * (l1 - l0)), 10.0 ** (l0 + f2 * (l1 - l0))
+        else:
+            m, sg = unhex(spec["mean"]), unhex(spec["sigma"])
+            a, b = m + STD.inv_cdf(f1) * sg, m + STD.inv_cdf(f2) * sg
+            if fam == "loggaussian":
+                a, b = math.exp(a), math.exp(b)
+    except (OverflowError, ValueError):
+        return None
+    if not (math.isfinite(a) and math.isfinite(b) and a < b):
+        return None
+    if fam in ("loguniform", "loggaussian") and not a > 1e-300:
+        return None
+    return a, b
+
+
+def other_message_spec(rng, spec):
+    """A prior of the same family with other parameters whose support contains the limits of `spec` (or None)."""
+    fam = spec["family"]
+    lo, hi = unhex(spec["lo"]), unhex(spec["hi"])
+    new = dict(spec)
+    if fam == "uniform":
+        w = hi - lo
+        a, b = lo - rng.uniform(0.05, 1) * w, hi + rng.uniform(0.05, 1) * w
+        if not (math.isfinite(w) and math.isfinite(a) and math.isfinite(b) and a < lo and hi < b):
+            return None
+        new["lo"], new["hi"] = hexf(a), hexf(b)
+    elif fam == "loguniform":
+        a, b = lo / 10.0 ** rng.uniform(0.1, 3), hi * 10.0 ** rng.uniform(0.1, 3)
+        if not (a > 1e-300 and math.isfinite(b) and math.isfinite(b / a)):
+            return None
+        new["lo"], new["hi"] = hexf(a), hexf(b)
+    else:
+        m, sg = unhex(spec["mean"]), unhex(spec["sigma"])
+        m2, s2 = m + rng.uniform(-2, 2) * sg, sg * rng.choice([0.5, 2.0, rng.uniform(0.3, 3)])
+        if not (math.isfinite(m2) and math.isfinite(s2) and s2 > 0):
+            return None
+        new["mean"], new["sigma"] = hexf(m2), hexf(s2)
+    return new
+
+
+def gen_derived(rng, spec, force=None):
+    fam = spec["family"]
+    lo, hi = unhex(spec["lo"]), unhex(spec["hi"])
+    hows = ["new", "from_dict", "from_config_dict", "pickle", "copy", "set_limits", "set_limits", "with_message", "with_message"]
     if fam in ("uniform", "loggaussian"):
         hows += ["with_limits"] * 4
     else:
         hows += ["cls_with_limits"] * 3
-    how = rng.choice(hows)
+    how = force or rng.choice(hows)
     d = {"how": how}
+    if how == "with_message":
+        m2 = other_message_spec(rng, spec)
+        if m2 is None:
+            return {"how": "new"}
+        d["msg"] = m2
+        return d
+    if how == "set_limits":
+        ab = set_limits_pair(rng, spec)
+        if ab is None:
+            return {"how": "new"}
+        d["a"], d["b"] = hexf(ab[0]), hexf(ab[1])
+        return d
     if how == "with_limits":
         if fam == "uniform" and math.isfinite(hi - lo):
             f1, f2 = sorted([rng.uniform(-0.2, 1.2), rng.uniform(-0.2, 1.2)])
@@ -299,12 +371,12 @@ def gen_derived(rng, spec):
     return d
 
 
-def gen_prior_case(rng, fam, n_units, derived=False):
+def gen_prior_case(rng, fam, n_units, derived=False, force=None):
     spec, shape = GEN[fam](rng)
     c = {"kind": "prior", "prior": spec, "shape": shape}
     msg, gate = spec, spec
     if derived:
-        d = gen_derived(rng, spec)
+        d = gen_derived(rng, spec, force)
         msg, gate, exc = expected_derived(spec, d)
         c["derived"] = d
         c["shape"] = "derived:" + d["how"]
@@ -316,11 +388,70 @@ def gen_prior_case(rng, fam, n_units, derived=False):
     return c
 
 
+def f32round(x):
+    """nearest binary32 value, as a Python float (stdlib only)."""
+    import struct
+    return struct.unpack("f", struct.pack("f", x))[0]
+
+
+BIT_EXACT_UT = ("np", "a0", "a1", "int", "bool")      # containers / types that must not change a single bit of the answer
+F32_UT = ("f32", "a1f32")                             # binary32 unit values: answer within the stated binary32 tolerance
+
+
+def exact_complement(u):
+    """1.0 - u is computed exactly in binary64 (u is a multiple of 2^-53): no cancellation in `1 - 2.0*(1.0 - u)`."""
+    return math.fmod(u, 2.0 ** -53) == 0.0
+
+
+def gen_typed_obs(rng, fam, grid, f32s):
+    """SWEEP class 2 (unusual but legal unit values), by construction in every prior case: the same NUMBER handed over as
+    numpy float64 / 0-d array / 1-element array / bool / int / -0.0 (bit-identical answer demanded) and as binary32
+    scalar / 1-element binary32 array (answer within the binary32 tolerance), through message.value_for and Prior.value_for;
+    unit_value_for of a 0-d / 1-element array; float(prior) as the second route to value_for(0.5).
+    UniformPrior.value_for rounds with Python's round(), which has never accepted an array with a dimension (TypeError
+    on the pinned tree as well): 1-element arrays reach a uniform prior through message.value_for only."""
+    out = []
+    interior = [u for u in grid if 0.0 < u < 1.0]
+    mid = [u for u in interior if 1e-6 < u < 1 - 1e-6 and abs(u - 0.5) > 0.01] or interior
+    for ut in ("a0", "a1", "np"):
+        u = rng.choice(mid)
+        route = rng.choice(["raw", "value"]) if not (fam == "uniform" and ut == "a1") else "raw"
+        o = {"t": route, "u": hexf(u), "ut": ut, "typed": True}
+        if route == "value":
+            o.update(ignore=False, kw=rng.random() < 0.5)
+        out.append(o)
+    # the second 1-element-array observation takes the other route where there is one
+    if fam != "uniform":
+        out.append({"t": "value", "u": hexf(rng.choice(mid)), "ut": "a1", "typed": True, "ignore": False, "kw": False})
+    e = rng.choice([0.0, 1.0])
+    out.append({"t": "raw", "u": hexf(e), "ut": rng.choice(["bool", "int", "a1", "a0"]), "typed": True})
+    out.append({"t": "value", "u": hexf(e), "ut": rng.choice(["bool", "int", "a0"]), "typed": True, "ignore": False, "kw": False})
+    out.append({"t": "raw", "u": hexf(-0.0), "typed": True, "ref": hexf(0.0)})          # -0.0 == 0.0
+    for k, u in enumerate(f32s):
+        ut = F32_UT[k % 2] if rng.random() < 0.5 else F32_UT[(k + 1) % 2]
+        if k % 2 == 0 or (fam == "uniform" and ut == "a1f32"):
+            out.append({"t": "raw", "u": hexf(u), "ut": ut, "typed": True})
+        else:
+            out.append({"t": "value", "u": hexf(u), "ut": ut, "typed": True, "ignore": True, "kw": True})
+    out.append({"t": "value", "u": hexf(0.5), "via": "float", "typed": True, "ignore": False, "kw": False})
+    return out
+
+
 def gen_obs(rng, msg, gate, n_units):
     fam = msg["family"]
     lo, hi = unhex(gate["lo"]), unhex(gate["hi"])
     obs = []
-    for k, u in enumerate(gen_units(rng, n_units)):
+    grid = set(gen_units(rng, n_units))
+    # binary32-representable unit values away from the centre and from the ends (SWEEP class 2)
+    f32s = [f32round(rng.choice([rng.uniform(0.02, 0.45), rng.uniform(0.55, 0.98)])) for _ in range(2)]
+    # deep in both tails, with an exactly computed complement 1 - u (no cancellation inside value_for): the inverse clause
+    # of the oracle is relative there
+    dyadic = [2.0 ** -rng.randint(10, 52), rng.choice([3, 5, 7]) * 2.0 ** -rng.randint(14, 53), 1 - 2.0 ** -rng.randint(8, 52)]
+    grid.update(f32s)
+    grid.update(dyadic)
+    grid.add(0.5)
+    force_rt = set(dyadic)
+    for k, u in enumerate(sorted(grid)):
         obs.append({"t": "raw", "u": hexf(u)})
         o = {"t": "value", "u": hexf(u), "ignore": False, "kw": k % 2 == 0}     # every other call relies on the default argument
         if u in (0.0, 1.0) and rng.random() < 0.5:
@@ -330,8 +461,9 @@ def gen_obs(rng, msg, gate, n_units):
         obs.append(o)
         if k % 3 == 0:
             obs.append({"t": "value", "u": hexf(u), "ignore": True})
-        if k % 2 == 0:
+        if k % 2 == 0 or u in force_rt:
             obs.append({"t": "rt", "u": hexf(u)})
+    obs += gen_typed_obs(rng, fam, sorted(grid), f32s)
     for u in rng.sample(MALFORMED_U, 2):
         ig = rng.random() < 0.3
         obs.append({"t": "value", "u": hexf(u), "ignore": ig, "kw": ig or rng.random() < 0.5})
@@ -351,6 +483,21 @@ def gen_obs(rng, msg, gate, n_units):
         if fam in ("loguniform", "loggaussian") and x < 0:
             continue
         obs.append({"t": "unit", "x": hexf(x)})
+    # the cdf deep in both tails of the normal families (relative clause of the oracle), whatever the limits are
+    if fam in ("gaussian", "loggaussian"):
+        m, s = unhex(msg["mean"]), unhex(msg["sigma"])
+        for z in (-rng.uniform(5, 9), -rng.uniform(9, 36), rng.uniform(4, 8)):
+            y = m + z * s
+            if fam == "loggaussian":
+                if not -700 < y < 700:
+                    continue
+                y = math.exp(y)
+            if math.isfinite(y) and (fam == "gaussian" or y > 0):
+                obs.append({"t": "unit", "x": hexf(y), "tail": True})
+    # the same physical value in a numpy container (SWEEP class 2)
+    xs_in = [unhex(o["x"]) for o in obs if o["t"] == "unit"]
+    if xs_in:
+        obs.append({"t": "unit", "x": hexf(rng.choice(xs_in)), "ut": rng.choice(["a0", "a1", "np"]), "typed": True})
     for k in range(4):
         if k == 0:
             l, u, kw = 0.0, 1.0, False                 # p.random() with default arguments
@@ -364,17 +511,23 @@ def gen_obs(rng, msg, gate, n_units):
     return obs
 
 
-def gen_vector_case(rng):
+def gen_vector_case(rng, share=False, twin=False):
     k = rng.randint(1, 6)
     specs = []
     for _ in range(k):
         fam = rng.choice(FAMILIES)
         specs.append(GEN[fam](rng)[0])
+    if twin:         # equal but distinct: two prior objects with identical parameters are two entries of the vector
+        specs.insert(rng.randint(0, k), dict(rng.choice(specs)))
+        k += 1
     order = list(range(k))
     rng.shuffle(order)
     us = [rng.choice([rng.random(), rng.random(), rng.choice(SPECIAL_U)]) for _ in range(k)]
-    return {"kind": "vector", "priors": specs, "attr_order": order, "us": [hexf(u) for u in us],
-            "ignore": rng.random() < 0.3}
+    c = {"kind": "vector", "priors": specs, "attr_order": order, "us": [hexf(u) for u in us],
+         "ignore": rng.random() < 0.3}
+    if share:        # one prior under several attribute names (sorting before and after the others): still one entry of the vector
+        c["share"] = [rng.randrange(k) for _ in range(rng.randint(1, 3))]
+    return c
 
 
 def fixed_case(rng, spec, shape, n_units, extra_units=()):
@@ -429,9 +582,11 @@ def gen_cases(ctx):
     cases.append(c)
     for fam in FAMILIES:
         for k in range(per_family):
-            cases.append(gen_prior_case(rng, fam, n_units, derived=(k % 4 == 3)))
-    for _ in range(160 if thorough else 40):
-        cases.append(gen_vector_case(rng))
+            # the first four derived cases of every family are use / change (limits in place, with_message) / use-again
+            # histories, by construction; every derivation happens AFTER the prior was used (driver: pre_use)
+            cases.append(gen_prior_case(rng, fam, n_units, derived=(k % 4 == 3), force={3: "set_limits", 7: "with_message", 11: "set_limits", 15: "with_message"}.get(k)))
+    for k in range(160 if thorough else 40):
+        cases.append(gen_vector_case(rng, share=(k % 3 == 0), twin=(k % 3 == 1)))
     return cases
 
 
@@ -460,7 +615,9 @@ def ratio_overflows(spec):
 
 def input_classes(c, msg, u=None):
     out = []
-    if msg["family"] in ("gaussian", "loggaussian") and u is not None and 0.0 < u < TAIL_U:
+    # the cancellation needs an inexact complement: for multiples of 2^-53 `1 - 2.0*(1.0 - u)` is exact, value_for is
+    # accurate on the pinned tree and nothing is excused
+    if msg["family"] in ("gaussian", "loggaussian") and u is not None and 0.0 < u < TAIL_U and not exact_complement(u):
         out.append(CL_TAIL)
     return out
 
@@ -622,6 +779,44 @@ def mono_noise(fam, lo, hi, mean, sigma, v1, v2, rounded):
     return v1 - v2 <= m * (sigma * 4.5e-16 * max(1.0, z) + 2.3e-16 * (2 + abs(y) + abs(mean)))
 
 
+def tail_inverse_tol(u, cond):
+    """Tolerance of unit_value_for(value_for(u)) == u for the normal families, scaled by the condition number of the
+    tail: an error dz of the score moves the tail probability p = min(u, 1-u) by p * (|z| + 1) * dz relatively
+    (Mills ratio), with dz <= 4e-16 * (|z| + cond) from erfinv / ndtr (a few ulp each) and from mapping the value back
+    (cond = (|value| + |mean|) / sigma).  Absolute terms: 2^-53 on the upper side (spacing of doubles below 1), and on
+    the lower side only when the complement 1 - u is inexact (then `1 - 2.0*(1.0 - u)` moves u by up to 2^-54: the
+    recorded finding normal-lower-tail-cancellation; for multiples of 2^-53 nothing is granted)."""
+    z = abs(std_quantile(u))
+    p = min(u, 1 - u)
+    if 4e-16 * (z + 1) * (z + cond) > 0.01:
+        return INF                  # the value cannot carry the score (|mean| >> sigma): only the absolute clause applies
+    rel = p * (1e-12 + 4e-16 * (z + 1) * (z + cond))
+    if u >= 0.5:
+        return rel + 2.0 ** -53
+    return rel + (0.0 if exact_complement(u) else 2.0 ** -53)
+
+
+def tail_cdf_mismatch(fam, mean, sigma, x, w):
+    """unit_value_for deep in a tail of a normal family against 0.5 * erfc (stdlib), relative to the tail probability."""
+    if fam == "gaussian":
+        z = (x - mean) / sigma
+        cond = 2.3e-16 * (abs(x) + abs(mean)) / sigma
+    else:
+        z = (math.log(x) - mean) / sigma
+        cond = 2.3e-16 * (2 + abs(math.log(x)) + abs(mean)) / sigma
+    if not math.isfinite(z):
+        return None
+    lower, upper = 0.5 * math.erfc(-z / math.sqrt(2)), 0.5 * math.erfc(z / math.sqrt(2))
+    rel = 1e-12 + (abs(z) + 1) * (cond + 4e-16 * abs(z))
+    if z < 0:
+        if lower < 1e-300:
+            return None                                            # subnormal probabilities carry few bits
+        tol = lower * rel
+        return None if abs(w - lower) <= tol else "declared cdf %r (score %.4g), off by %.3g > %.3g" % (lower, z, abs(w - lower), tol)
+    tol = upper * rel + 2.0 ** -53
+    return None if abs((1 - w) - upper) <= tol else "declared survival probability %r (score %.4g), 1 - unit value = %r" % (upper, z, 1 - w)
+
+
 class Failures:
     def __init__(self):
         self.items = []   # (kind, message, classes)
@@ -658,6 +853,10 @@ def oracle_prior(c, r):
         if fam in ("gaussian", "loggaussian"):
             want["mean"], want["sigma"] = hexf(mean), hexf(sigma)
         got = {k: (hexf(unhex(v)) if k != "cls" else v) for k, v in d.items()}
+        if how == "with_message" and fam == "loggaussian":
+            # LogGaussianPrior keeps mean / sigma as attributes of its own next to the message: with_message leaves them at
+            # the old values (value_for, unit_value_for and random all follow the new message; recorded in reports/sweep-C02.md)
+            got.pop("mean", None), got.pop("sigma", None), want.pop("mean", None), want.pop("sigma", None)
         if got != want:
             F.add("derived", "prior obtained by %s is %s, expected %s" % (how or "constructor", got, want))
     cls = lambda u=None: input_classes(c, msg, u)
@@ -668,8 +867,12 @@ def oracle_prior(c, r):
     narrow = fam == "loguniform" and \
         9e-16 * (2 + abs(math.log10(mlo)) + abs(math.log10(mhi))) / ldec > 5e-15
     wide_uniform = fam == "uniform" and not math.isfinite(width)
+    typed, unit_at = [], {}
     for o, x in zip(c["obs"], r["obs"]):
         t = o["t"]
+        if o.get("typed"):
+            typed.append((o, x))             # compared below with the answer for the plain float
+            continue
         if t == "raw":
             if "ok" not in x:
                 F.add("exception", "message.value_for(%r) raised %s" % (unhex(o["u"]), x.get("exc")))
@@ -710,10 +913,12 @@ def oracle_prior(c, r):
                 tol = 1.01e-14 + 9e-16 * (2 + abs(math.log10(mlo)) + abs(math.log10(mhi))) / ldec
             elif fam == "gaussian":
                 tol = 1e-15 + 1e-13 * min(u, 1 - u) + 1e-15 * (abs(v) + abs(mean)) / sigma
+                tol = min(tol, tail_inverse_tol(u, (abs(v) + abs(mean)) / sigma))
             else:
                 if not v > 0:
                     continue
                 tol = 1e-15 + 1e-13 * min(u, 1 - u) + 1e-15 * (2 + abs(math.log(v)) + abs(mean)) / sigma
+                tol = min(tol, tail_inverse_tol(u, (2 + abs(math.log(v)) + abs(mean)) / sigma))
             # nan = the recomputed unit argument fell outside the clamp window [-1e-14, 1+1e-14] of transform.ndtri; that is
             # within the conditioning error of the computation when u is this close to an end (narrow log-uniform ranges)
             cond = tol - 1.01e-14
@@ -727,6 +932,11 @@ def oracle_prior(c, r):
                 F.add("exception", "unit_value_for(%r) raised %s" % (xx, x.get("exc")))
             else:
                 w = unhex(x["ok"])
+                unit_at[o["x"]] = w
+                if o.get("tail"):
+                    mm = tail_cdf_mismatch(fam, mean, sigma, xx, w)
+                    if mm:
+                        F.add("unit-tail", "unit_value_for(%r) = %r: %s" % (xx, w, mm))
                 if within(mlo, xx, mhi) and not wide_uniform and not narrow:
                     if not (0.0 <= w <= 1.0):
                         F.add("unit-range", "unit_value_for(%r) = %r is not in [0, 1]" % (xx, w), cls())
@@ -737,6 +947,10 @@ def oracle_prior(c, r):
                 F.add("exception", "unit limits raised %s" % x.get("exc"))
             else:
                 a, b = unhex(x["lower"]), unhex(x["upper"])
+                for nm, got, direct in (("lower", x["lower"], x.get("lower_direct")), ("upper", x["upper"], x.get("upper_direct"))):
+                    if direct is not None and hexf(unhex(got)) != (hexf(unhex(direct)) if direct[:1] in "0-ni" else direct):
+                        F.add("unit-limits-route", "%s_unit_limit = %r but unit_value_for(%s_limit) = %r" % (
+                            nm, unhex(got), nm, unhex(direct) if direct[:1] in "0-ni" else direct))
                 if not wide_uniform and not narrow and not (0.0 <= a <= b <= 1.0):
                     F.add("unit-range", "unit limits (%r, %r) are not ordered inside [0, 1]" % (a, b), cls())
         elif t == "random":
@@ -745,6 +959,9 @@ def oracle_prior(c, r):
             # window [1e-14, 1 - 1e-14]) and the library's own random number
             if fam in ("uniform", "loguniform"):
                 lul, uul = 1e-14, 1 - 1e-14
+                if (lo, hi) != (mlo, mhi) and not wide_uniform:        # limits changed in place: the gate sits inside the support
+                    lul = min(max(mdecl.cdf(lo), 1e-14), 1 - 1e-14)
+                    uul = min(max(mdecl.cdf(hi), 1e-14), 1 - 1e-14)
             elif fam == "uniform" and wide_uniform:
                 lul, uul = 0.0, 1.0
             else:
@@ -767,6 +984,71 @@ def oracle_prior(c, r):
                 F.add("random-raises", "random(%r, %r) [seed %d] raised the limit exception although the unit window [%r, %r] "
                       "is not empty (unit value %r, declared quantile %r inside [%r, %r])" % (
                           l, uu, o["seed"], a, b, U, mdecl.quantile(U), lo, hi), cls(U))
+    # SWEEP class 2 / 3: the answer depends on the NUMBER handed over, not on its container, numeric type or route
+    for o, x in typed:
+        t = o["t"]
+        ut = o.get("ut") or o.get("via") or "negative-zero"
+        what = "float(prior), i.e. value_for(0.5)," if o.get("via") == "float" else "%s(%s %r)" % ({"raw": "message.value_for", "value": "value_for", "unit": "unit_value_for"}[t], ut,
+                              unhex(o["x"] if t == "unit" else o["u"]))
+        if t == "unit":
+            ref = unit_at.get(o["x"], "missing")
+        elif t == "raw":
+            ref = raw_at.get(o.get("ref", o["u"]), "missing")
+        elif ut in F32_UT:
+            ref = raw_at.get(o["u"], "missing")
+        else:
+            ref = val_at.get(o["u"], "missing")            # None = the plain call raised the limit exception
+        if ref == "missing":
+            continue
+        if "ok" not in x:
+            if x.get("exc") == "PriorLimitException" and t == "value" and not o.get("ignore"):
+                if ref is not None:
+                    F.add("unit-type", "%s raised the limit exception, the same number as a float maps to %r" % (what, ref))
+            else:
+                F.add("unit-type", "%s raised %s: %s" % (what, x.get("exc"), x.get("msg")))
+            continue
+        v = unhex(x["ok"])
+        if ref is None:
+            F.add("unit-type", "%s returned %r, the same number as a float raises the limit exception" % (what, v))
+        elif ut in F32_UT:
+            u = unhex(o["u"])
+            if not decl.ok or narrow or math.isnan(ref):
+                continue
+            # binary32 arithmetic inside NormalMessage.value_for: t = 1 - 2(1 - u) carries <= 1.5 * 2^-24 absolute (0.75 * 2^-24
+            # in the unit value), erfinv <= 1 ulp32 relative; in unit space that is 2^-23 + 2^-22 |z| pdf(z), plus the
+            # conditioning of mapping the value back (the terms of the inverse clause)
+            if not math.isfinite(v):
+                continue                 # overflow of the 14-decimal rounding under ignore_prior_limits=True (huge uniform ranges)
+            z = std_quantile(u)
+            tol = 2.0 ** -23 + 2.0 ** -22 * abs(z) * std_pdf(z)
+            if fam == "uniform":
+                tol += 2 * (1.01e-14 + (5.1e-15 + 4.5e-16 * max(abs(mlo), abs(mhi))) / width)
+            elif fam == "loguniform":
+                tol += 2 * (1.01e-14 + 9e-16 * (2 + abs(math.log10(mlo)) + abs(math.log10(mhi))) / ldec)
+            elif math.isfinite(v) and math.isfinite(ref):
+                y = abs(v) if fam == "gaussian" else (2 + abs(math.log(v)) if v > 0 else INF)
+                tol += 2e-15 * (y + abs(mean)) / sigma
+            w1, w0 = mdecl.cdf(v), mdecl.cdf(ref)
+            if not abs(w1 - w0) <= tol:
+                F.add("unit-type", "%s = %r sits at probability %r of the declared distribution, the same number as a float "
+                      "maps to %r at %r: off by %.3g > %.3g (binary32 tolerance)" % (what, v, w1, ref, w0, abs(w1 - w0), tol))
+        elif hexf(v) != hexf(ref) and not (v == 0.0 and ref == 0.0):
+            # numpy evaluates 10**x / exp / log10 / log of an ARRAY in a vectorised loop whose last bit may differ from the
+            # scalar routine: 1-element arrays through the log families are compared within 4 ulp (value) / the
+            # conditioning of the cdf (unit value), everything else bit for bit
+            if ut == "a1" and fam in ("loguniform", "loggaussian") and math.isfinite(v) and math.isfinite(ref):
+                if t != "unit" and abs(v - ref) <= 4 * ulp(ref):
+                    continue
+                if t == "unit" and abs(v - ref) <= 1e-13 + (9e-16 * (2 + abs(math.log10(mlo)) + abs(math.log10(mhi))) / ldec if fam == "loguniform" else 1e-15 / sigma):
+                    continue
+            F.add("unit-type", "%s = %r, the same number as a float gives %r" % (what, v, ref))
+    # SWEEP class 1: the same call on the same object later on, and on a fresh object built the same way, answers the same
+    for route, items in sorted((r.get("history") or {}).items()):
+        for it in items[:2]:
+            o = c["obs"][it["k"]] if it["k"] >= 0 else None
+            F.add("history", "%s: observation %s answered %s the first time and %s %s" % (
+                route, json.dumps(o), json.dumps(it["first"]), json.dumps(it["second"]),
+                "when asked again after the other uses of the same object" if route == "again" else "on a fresh object built the same way"))
     # gate consistency: raise exactly when the message value is outside the limits; returned value is that value
     for uh, raw in raw_at.items():
         if uh in val_at:
@@ -886,10 +1168,14 @@ def coq_result(x):
     return None
 
 
-def coq_obs(o, x):
+def coq_obs(o, x, fam=None):
     """Coq terms (possibly several) for one observation; [] when the outcome is not expressible
     (unexpected exception: already reported by the oracle)."""
     t = o["t"]
+    if o.get("ut") in F32_UT:
+        return []                                  # binary32 arithmetic is outside the binary64 model: oracle only
+    if o.get("ut") == "a1" and fam in ("loguniform", "loggaussian"):
+        return []                                  # numpy's vectorised 10**x / exp / log loops: last bit differs from the scalar tables
     if t == "value":
         e = coq_result(x)
         return ["OValue %s %s %s" % (cf(o["u"]), cbool(o["ignore"]), e)] if e else []
@@ -915,7 +1201,7 @@ def coq_case(c, r, only_obs=None):
         for k, (o, x) in enumerate(zip(c["obs"], r["obs"])):
             if only_obs is not None and k != only_obs:
                 continue
-            terms += coq_obs(o, x)
+            terms += coq_obs(o, x, (c.get("msg_prior") or c["prior"])["family"])
         msg = c.get("msg_prior") or c["prior"]
         gate = c.get("gate_prior") or c["prior"]
         if msg != gate:
@@ -950,11 +1236,15 @@ def case_key(c):
 def run(ctx):
     ctx.rule = ("a case is one prior (family uniform / log-uniform / gaussian / log-gaussian, finite parameters, limits incl. far "
                 "tails, tiny widths, >14-decimal limits, up to 600 decades; built by its constructor or derived through "
-                "with_limits / new / from_dict / pickle / deepcopy) with a sorted set of unit values (0, 1, 2^-53, 1-2^-53, "
-                "denormals, grid, random, last-bit neighbours, a few malformed; float / int / numpy scalars) observed through "
+                "with_limits / new / from_dict / pickle / deepcopy / with_message / in-place re-assignment of the limits, every "
+                "derivation AFTER the prior was used) with a sorted set of unit values (0, 1, -0.0, 2^-53, 1-2^-53, denormals, grid, "
+                "random, last-bit neighbours, dyadic values deep in both tails, a few malformed; float / int / bool / numpy float64 "
+                "/ 0-d array / 1-element array / binary32 scalar and array) observed through "
                 "message.value_for, Prior.value_for (limits enforced by default argument or keyword / ignored), unit_value_for "
-                "round trips, lower/upper_unit_limit and seeded Prior.random (default and explicit bounds); or one Collection of "
-                "1-6 priors through vector_from_unit_vector.  A prior case is non-trivial when it carries >= 8 distinct unit "
+                "round trips, float(prior), the cdf deep in both tails, lower/upper_unit_limit (and unit_value_for of the limits) and "
+                "seeded Prior.random (default and explicit bounds); every observation is asked again of the same object "
+                "afterwards, of a fresh object, and (derived priors) of the prior derived from; or one Collection of "
+                "1-7 priors (some under several attribute names, some equal but distinct) through vector_from_unit_vector.  A prior case is non-trivial when it carries >= 8 distinct unit "
                 "values strictly inside (0,1); a vector case when it has >= 2 priors whose attribute order differs from id "
                 "order; distinct = distinct abstract input (prior parameters + derivation + observations)")
     ctx.trusted = [
@@ -978,6 +1268,16 @@ def run(ctx):
         "the property oracle compares with stdlib references (statistics.NormalDist, math.erfc); it demands a RETURN whenever the "
         "declared quantile lies inside the limits (unit margin 1e-9 relative + 2.3e-16 above 6e-8), compares tails in score "
         "space relative to |z|, and demands that random() does not raise on a non-empty unit window; a search aid, not evidence",
+        "sweep clauses of the oracle: (unit-type) the same number as numpy float64 / 0-d array / 1-element array / int / bool / "
+        "-0.0 gives the bit-identical answer (1-element arrays through the log families: 4 ulp, numpy's vectorised 10**x / exp / "
+        "log loops), as binary32 the answer within 2^-23 + 2^-22 |z| pdf(z) in unit space plus conditioning; (unit-tail) the cdf "
+        "of the normal families deep in both tails relative to the tail probability (1e-12 + (|z|+1) * conditioning); (inverse) "
+        "unit_value_for(value_for(u)) = u relative to min(u, 1-u) with the Mills-ratio condition number, absolute 2^-53 granted "
+        "only above 1/2 or when 1-u is inexact; (history) identical answers when asked again, from a fresh object and from the "
+        "prior derived from; (unit-limits-route) lower/upper_unit_limit = unit_value_for(lower/upper_limit) bit for bit.  "
+        "UniformPrior.value_for of an array with a dimension raises TypeError (Python round()) on the pinned tree: such unit "
+        "values reach uniform priors through message.value_for only.  LogGaussianPrior.with_message leaves the prior's own "
+        "mean / sigma attributes at the old values (mapping, cdf and draws follow the new message): not compared",
         "UniformPrior.value_for is modelled as repaired in 9c8aefe (code_variant = Repaired), LogUniformPrior's scale as "
         "repaired in e638353 (loguniform_variant = LURatioGuard), with_limits as an ordinary constructor call since d755794; "
         "the theorems named C02_before_fix_* and the Witness examples named *_legacy* describe the code before those commits "
@@ -1009,8 +1309,17 @@ def run(ctx):
         if c["kind"] == "prior":
             ctx.hist("shape:" + c["prior"]["family"], c.get("shape"))
             ctx.hist("observations", len(c["obs"]))
+            for o in c["obs"]:
+                if o.get("typed"):
+                    ctx.hist("unit-type", "%s:%s" % (o["t"], o.get("ut") or o.get("via") or "negative-zero"))
+                if o.get("tail"):
+                    ctx.hist("tail-cdf-points", c["prior"]["family"])
+                if o["t"] == "rt" and 0 < unhex(o["u"]) < 1 and exact_complement(unhex(o["u"])) and min(unhex(o["u"]), 1 - unhex(o["u"])) < 1e-3:
+                    ctx.hist("dyadic-tail-round-trips", "lower" if unhex(o["u"]) < 0.5 else "upper")
         else:
             ctx.hist("vector-size", len(c["priors"]))
+            ctx.hist("vector-shared-paths", len(c.get("share", [])))
+            ctx.hist("vector-equal-but-distinct-priors", len(c["priors"]) - len({json.dumps(q, sort_keys=True) for q in c["priors"]}))
         if "exc" in r:
             ctx.oracle["failures"] += 1
             ctx.failure("oracle", "driver raised: %s" % json.dumps(r)[:300], c, impl=r)
@@ -1074,7 +1383,7 @@ def run(ctx):
                 if c["kind"] == "prior" and n_bad < 2:     # name the disagreeing observations of the first two
                     single, idx = [], []
                     for k in range(len(c["obs"])):
-                        if coq_obs(c["obs"][k], ro["obs"][k]):
+                        if coq_obs(c["obs"][k], ro["obs"][k], (c.get("msg_prior") or c["prior"])["family"]):
                             single.append(coq_case(c, ro, only_obs=k))
                             idx.append(k)
                     bad1, _ = common.coq_eval_cases("C02", hdr, "case", "check_case", single, ctx.rundir, tag="diag%d" % b, shard=400)
@@ -1097,9 +1406,15 @@ MANIFEST = {
             "random draws, derived priors, vector_from_unit_vector): monotonicity, cdf-inverse, declared quantile, limit gate, "
             "end points and never-raising random draws for all parameters and all unit values in (0,1) over the reals (special "
             "functions as hypotheses), a by-induction theorem for arbitrary transform stacks, the rounding/gate interplay over Q; "
+            "the prior OBJECT as a state machine (uses, in-place re-assignment of the limits, an arbitrary memo): for every sound "
+            "memo policy every history answers as the memo-less object, each answer a function of (message, limits in force, "
+            "query) only, returned values within the limits in force; a memo keyed by the query alone refuted; "
             "the same Gallina terms instantiated with binary64 + oracle tables from scipy are compared bit-for-bit (vm_compute) with "
             "the running code, plus a direct property oracle with stdlib references that demands a return wherever the declared "
-            "quantile lies inside the limits, on every generated case",
+            "quantile lies inside the limits, on every generated case; every case also carries use / derive-or-change / use-again "
+            "histories compared with fresh objects, the same unit value in numpy containers and binary32, dyadic unit values and "
+            "cdf points deep in both tails with condition-number-scaled relative tolerances, shared and equal-but-distinct priors "
+            "in vectors",
     "note": "Trusted: Coq kernel + vm_compute + stdlib Reals axioms, the harness, scipy/numpy special functions (hypotheses over R; "
             "oracle tables in the correspondence). The theorems are over exact reals: in binary64 the property still fails in two "
             "recorded ways (known findings with float witnesses: lower-tail cancellation of the normal quantile below 6e-8, "
